@@ -296,7 +296,13 @@ def _real_subnormal_any(M, scn, op, ev):
     return False
 
 
+def _int_under_wide_types_option(M, scn, op, ev):
+    wide = any("-fwide-types" in str(o.get("style", "")) for o in scn["plan"])
+    return wide and any(t["k"] in ("INTEGER", "ENUM") for t, v in leaves(M, {"k": "REF", "n": scn["ty"]}, scn["val"]))
+
+
 PREDS = {
+    "int_under_wide_types_option": _int_under_wide_types_option,
     "real_subnormal_any": _real_subnormal_any,
     "int_ulong32_above": any_leaf(_int_ulong32_above),
     "toplevel_listof_size_violated": _toplevel_listof_size_violated,
